@@ -112,6 +112,18 @@ func genCase(t *rapid.T) Case {
 	}
 	switch class {
 	case "valid":
+		// half of the valid encodings are decoded under limits that are exactly the
+		// largest count they hold at each level: a count equal to its limit does not
+		// exceed it
+		if rapid.Bool().Draw(t, "tight") {
+			c.Limits = [3]int{0, 0, 0}
+			for _, f := range fields {
+				if f.Level > 0 && int(f.Value) > c.Limits[f.Level-1] {
+					c.Limits[f.Level-1] = int(f.Value)
+				}
+			}
+			c.Class = "valid-tight"
+		}
 	case "forgery":
 		// limits large enough for the base geometry, one field pushed above its limit
 		for i := range c.Limits {
@@ -277,11 +289,13 @@ func prop(c Case) error {
 	}
 	// forged count: the first count field (in encoding order) above its limit decides
 	w := refwkb.Walk(c.Data, refMode(c.Mode))
-	if c.Class == "forgery" || c.Class == "valid" {
+	exceeded := false
+	if c.Class == "forgery" || c.Class == "valid" || c.Class == "valid-tight" {
 		for _, f := range w.Fields {
 			if f.Level == 0 || c.Limits[f.Level-1] < 0 || int64(f.Value) <= int64(c.Limits[f.Level-1]) {
 				continue
 			}
+			exceeded = true
 			var tl wkbcommon.ErrGeometryTooLarge
 			if !errors.As(derr, &tl) {
 				return fmt.Errorf("count field at offset %d (level %d) = %d exceeds limit %d but decode returned %v", f.Offset, f.Level, f.Value, c.Limits[f.Level-1], derr)
@@ -292,10 +306,13 @@ func prop(c Case) error {
 			break
 		}
 	}
-	if c.Class == "valid" && derr != nil {
+	if (c.Class == "valid" || c.Class == "valid-tight") && derr != nil {
 		var tl wkbcommon.ErrGeometryTooLarge
 		if !errors.As(derr, &tl) {
 			return fmt.Errorf("valid encoding rejected: %v", derr)
+		}
+		if !exceeded {
+			return fmt.Errorf("valid encoding in which no count exceeds its limit (limits %v) rejected: %v", c.Limits, derr)
 		}
 	}
 	// wrappers agree on error / non-error
